@@ -146,7 +146,7 @@ class LinForms:
         """size in bytes of what a pointer-typed expression points to"""
         t = self.tu.types[ptr_node["t"]]
         s = t.get("c", "")
-        if t.get("arr") is not None and "[" in s:
+        if (t.get("arr") is not None or s.endswith("[]")) and "[" in s:
             base = s[:s.index("[")].strip()
         elif s.endswith("*"):
             base = s[:-1].strip()
@@ -197,7 +197,7 @@ class LinForms:
         if k == "MemberExpr":
             # address of an array member (decays): base address + member offset
             t = self.tu.types[n["t"]]
-            if t.get("arr") is not None:
+            if t.get("arr") is not None or t.get("c", "").endswith("[]"):
                 base, path = member_path(n)
                 if base is not None and n.get("arrow") and len(path) == 1:
                     bl = self.lin(base, st)
@@ -218,8 +218,13 @@ class LinForms:
                 t = self.tu.types[n["t"]] if n.get("t") is not None else {}
                 if t.get("ptr"):
                     # pointer arithmetic scales the integer operand
-                    la, lb = strip(n["c"][0]), strip(n["c"][1])
-                    pa = self.tu.types[la["t"]].get("ptr") or self.tu.types[la["t"]].get("arr") is not None
+                    la, lb = n["c"][0], n["c"][1]
+                    while la.get("k") == "ParenExpr":
+                        la = la["c"][0]
+                    while lb.get("k") == "ParenExpr":
+                        lb = lb["c"][0]
+                    ta = self.tu.types[la["t"]]
+                    pa = bool(ta.get("ptr")) or ta.get("arr") is not None or ta.get("c", "").endswith("[]")
                     pn = la if pa else lb
                     es = self.elem_size(pn)
                     if es is None:
@@ -722,6 +727,17 @@ class LinForms:
                 if s is not None:
                     outs.append((s, st.copy()))
         return outs
+
+    def states_at_any(self, node, fn=None):
+        """states before the nearest enclosing CFG element of `node`"""
+        cur = node
+        while cur is not None:
+            if "i" in cur:
+                sts = self.states_at(cur)
+                if sts is not None:
+                    return sts
+            cur = self.fn.parent(cur)
+        return []
 
     def states_at(self, node):
         cfg = self.fn.cfg
